@@ -3,11 +3,36 @@ Owned by the 'expr' side: the other side reads the requires/ensures written here
 
 What is proved for every fn f(p: &mut LuaParser, ..) of expr.rs (unit c02_gexpr; again, together with stat.rs/mod.rs, in c02_grammar):
   requires ginv(old(p)) [std], gfirst(old(p)), nosoft(old(p))
-  ensures  ginv(final(p)), gstep(old(p), final(p)) [std], nosoft(final(p)), gkeep(old(p), final(p)),
+  ensures  ginv(final(p)) [C01.grammar.keeps-inv], gstep(old(p), final(p)) [C02.grammar.step]   (standard contract, build.py)
+           nosoft(final(p)), gkeep(old(p), final(p)),
            and for the fns returning ParseResult:  Ok(cm) ==> cm_live(&cm, final(p))   (precede may be called on the result)
-  + the labelled progress clauses below; every loop has a `decreases`; every fn has `decreases grem(old(p)), <rank>`.
-All preconditions of bump / mark / push_node_end / Marker::{set_kind,complete} / CompleteMarker::precede are discharged at the call
-sites inside the real bodies (no `unreachable!()`, no index panic, no overflow of the lookahead / brace counters).
+  + the labelled progress clauses (C02.expr.progress / simple-progress); every loop has a `decreases` (labels C02.expr.*-loop-terminates,
+  surfaced by rule ge-label-loops); every fn has `decreases grem(old(p)), <rank>` (C02.expr.recursion-terminates; the calls that rely on
+  a consumed token are preceded by a labelled assert, C02.expr.recursion-consumed-a-token).
+All preconditions of bump / mark / push_node_end / Marker::{set_kind,complete} / CompleteMarker::precede / current_token_text are discharged
+at the call sites inside the real bodies: no `unreachable!()`, no index panic, no overflow of the lookahead / brace counters, PRIORITY index
+in range. Not proved: overflow of the ternary / paren depth counters (shims, see TRUSTED).
+
+REWRITE RULES of the expr side (all unit-local, prefixed `ge-`; each is local, named, and checked against the shape it expects — a change of
+the repository text that leaves the shape makes the unit UNDECIDED, never silently accepted):
+  ge-drop-push-error        `p.push_error(LuaParseError::syntax_error_from(MSG, RANGE));` -> `vx_note_error();` (a no-op fn, shared_shims.rs).
+                            Why: `errors` is a field projected out of LuaParser (no contract mentions it), `t!` is an i18n macro and
+                            LuaParseError an unextracted type. Why it preserves the parser state: push_error only appends to `errors`; the rule
+                            rejects any MSG / RANGE that calls something other than t!, p.current_token(), p.current_token_range() (both `&self`,
+                            proved total in the base unit), and any `?` / `return` inside. TRUSTED: the dropped calls do not panic.
+  ge-drop-error-msg         `let error_msg = match p.current_token() { K => t!(..), .. };` -> removed (parse_simple_expr). The binding is only the
+                            MSG of the push_error dropped before it (checked: no other use), its initialiser only reads p.current_token().
+  ge-match-guard-if-chain   `match E { P1 => B1, P2 if G => B2, .., _ => Bn }` on a LuaTokenKind value -> `{ let vx_m = E; if matches!(vx_m, P1)
+                            {B1} else if matches!(vx_m, P2) && (G) {B2} .. else {Bn} }` (parse_simple_expr). Why: Verus rejects an or-pattern with a
+                            guard and loses the final(p) link of a `&mut` parameter mutated in a guarded arm. Why it is the same program: patterns
+                            are or-patterns of field-less paths (checked: no bindings), so testing them has no effect; arms are tried in order, an
+                            arm is taken iff pattern and guard hold, the scrutinee is evaluated once (Rust reference, match expressions).
+  ge-local-const            `const NAME: T = <integer literal>;` as a statement inside a fn body -> `let NAME: T = <literal>;` (TERNARY_LEFT,
+                            MAX_LOOKAHEAD). Why: Verus has no item statements. Same program: the constant is used as a value, after its
+                            declaration, in the same block only.
+  ge-label-loops            COMMENT-ONLY: writes the property label after each loop keyword / `continue;` so that a violated loop `decreases`
+                            (reported by Verus at the loop header / the `continue`) is named after the property clause. No code token changes.
+Shims instead of rules (callee outside the dialect / touching projected-out fields): shared_shims.rs, expr_shims.rs (placement only), TRUSTED below.
 """
 import re
 from vc import rules as R
@@ -245,7 +270,9 @@ ITEMS = {
         ret='r', rank=20, rules=ERR, attrs='#[verifier::spinoff_prover]\n#[verifier::rlimit(30)]',
         requires=REQ + ',\n        old(p).current_token is TkName || old(p).current_token is TkLogicalOr || old(p).current_token is TkBitOr',
         ensures=ENS_CM + ',\n        ' + PROG + ' /*@C02.expr.progress*/',
-        proof=[dec(r'parse_block\(p\)\?;'), dec(r'match parse_expr\(p\) \{')]),
+        # (no DEC asserts in front of parse_block / parse_expr here: they double the cost of this query; a violated measure is reported
+        #  by Verus at the call as `could not prove termination`, see mutant ge-short-fn-setkind-no-bump)
+        ),
     'parse_param_list': e_fn(
         ret='r', rank=10, requires=REQ + ',\n        !(open_token is TkEof), !(close_token is TkEof)', rules=ERR,
         proof=[(r'match parse_param_name\(p, &mut is_vararg\) \{', 'before', 'let ghost ti0 = p.token_index;')],
@@ -280,7 +307,7 @@ ITEMS = {
         ret='r', rank=20, requires=REQ, rules=ERR,
         ensures=ENS_CM + ',\n        (r is Ok || old(p).current_token is TkName) ==> ' + PROG + ' /*@C02.expr.progress*/',
         labels=['C02.expr.suffix-loop-terminates'],
-        loops={0: loop('cm_live(&cm, p), p.token_index > old(p).token_index,', 'grem(p)')},
+        loops={0: loop('cm_live(&cm, p), p.token_index > old(p).token_index, grem(p) < grem(old(p)),', 'grem(p)')},
         proof=[dec(r'match parse_expr\(p\) \{'),
                dec(r"p\.bump\(\); // consume '\?\.'\s*(?=if let Err\(err\) = parse_args\(p\))", 'after'),
                dec(r'let m = cm\.precede\(p, LuaSyntaxKind::CallExpr\);\s*(?=if let Err\(err\) = parse_args\(p\))', 'after')]),
@@ -356,18 +383,18 @@ BASE_PATCH = {
 
 MUTANTS = [
     # ---- termination of the recursion (decreases grem(old(p)), rank) ----
-    _mut('ge-unary-no-bump', 'parse_sub_expr', r'p\.bump\(\);(\s*match parse_sub_expr\(p, UNARY_PRIORITY\))', r'\1', r'parse_sub_expr:could-not-prove-termination'),
-    _mut('ge-paren-no-bump', 'parse_suffixed_expr', r'p\.bump\(\);(\s*p\.enter_paren\(\);\s*match parse_expr\(p\))', r'\1', r'parse_suffixed_expr:could-not-prove-termination'),
+    _mut('ge-unary-no-bump', 'parse_sub_expr', r'p\.bump\(\);(\s*match parse_sub_expr\(p, UNARY_PRIORITY\))', r'\1', r'parse_sub_expr:.*C02\.expr\.recursion-consumed-a-token'),
+    _mut('ge-paren-no-bump', 'parse_suffixed_expr', r'p\.bump\(\);(\s*p\.enter_paren\(\);\s*match parse_expr\(p\))', r'\1', r'parse_suffixed_expr:.*C02\.expr\.recursion-consumed-a-token'),
     _mut('ge-field-reparse-table', 'parse_field_with_recovery', r'LuaTokenKind::TkEof \| LuaTokenKind::TkLocal => \{', r'LuaTokenKind::TkEof | LuaTokenKind::TkLocal => { let _ = parse_table_expr(p);',
          r'parse_field_with_recovery:(could-not-prove-termination|precondition)'),
-    _mut('ge-index-no-bump', 'parse_index_struct', r'(LuaTokenKind::TkLeftBracket => \{)\s*p\.bump\(\);', r'\1', r'parse_index_struct:could-not-prove-termination'),
+    _mut('ge-index-no-bump', 'parse_index_struct', r'(LuaTokenKind::TkLeftBracket => \{)\s*p\.bump\(\);', r'\1', r'parse_index_struct:.*C02\.expr\.recursion-consumed-a-token'),
     # ---- progress of the loops (the obligation is reported at the loop / the `continue`) ----
-    _mut('ge-ternary-no-bump', 'parse_sub_expr', r"p\.bump\(\); // consume '\?'", '', r'parse_sub_expr:decreases-not-satisfied-at-continue'),
-    _mut('ge-recover-no-bump', 'recover_to_table_boundary', r'p\.bump\(\);', '', r'recover_to_table_boundary:decreases-not-satisfied-at-end-of-loop'),
-    _mut('ge-args-continue-no-bump', 'parse_args', r'p\.bump\(\);(\s*continue;)', r'\1', r'parse_args:decreases-not-satisfied-at-continue'),
+    _mut('ge-ternary-no-bump', 'parse_sub_expr', r"p\.bump\(\); // consume '\?'", '', r'parse_sub_expr:decreases-not-satisfied-at-continue\[C02\.expr\.binop-loop-terminates'),
+    _mut('ge-recover-no-bump', 'recover_to_table_boundary', r'p\.bump\(\);', '', r'recover_to_table_boundary:decreases-not-satisfied-at-end-of-loop\[C02\.expr\.recovery-loop-terminates'),
+    _mut('ge-args-continue-no-bump', 'parse_args', r'p\.bump\(\);(\s*continue;)', r'\1', r'parse_args:decreases-not-satisfied-at-continue\[C02\.expr\.args-loop-terminates'),
     _mut('ge-table-sep-no-bump', 'parse_table_expr', r'p\.bump\(\); // consume separator', '', r'parse_table_expr:decreases-not-satisfied-at-end-of-loop'),
-    _mut('ge-lookahead-no-count', 'parse_table_expr', r'lookahead_count \+= 1;', '', r'parse_table_expr:decreases-not-satisfied-at-end-of-loop'),
-    _mut('ge-param-comma-no-bump', 'parse_param_list', r'(if p\.current_token\(\) == LuaTokenKind::TkComma \{)\s*p\.bump\(\);', r'\1', r'parse_param_list:decreases-not-satisfied-at-end-of-loop'),
+    _mut('ge-lookahead-no-count', 'parse_table_expr', r'lookahead_count \+= 1;', '', r'parse_table_expr:decreases-not-satisfied-at-end-of-loop\[C02\.expr\.lookahead-loop-terminates'),
+    _mut('ge-param-comma-no-bump', 'parse_param_list', r'(if p\.current_token\(\) == LuaTokenKind::TkComma \{)\s*p\.bump\(\);', r'\1', r'parse_param_list:decreases-not-satisfied-at-end-of-loop\[C02\.expr\.param-loop-terminates'),
     _mut('ge-suffix-call-no-progress', 'parse_args', r'(LuaTokenKind::TkString \| LuaTokenKind::TkLongString => \{\s*let m1 = p\.mark\(LuaSyntaxKind::LiteralExpr\);)\s*p\.bump\(\);', r'\1',
          r'C02\.expr\.progress'),
     # ---- a recovery loop that no longer stops at the end of the input bumps at TkEof (index panic in parse_trivia_tokens) ----
@@ -392,13 +419,13 @@ MUTANTS = [
          r'parse_suffixed_expr:precondition-not-satisfied\{.*parse_name_or_special_function'),
     _mut('ge-short-function-wrong-token', 'parse_simple_expr', r'LuaTokenKind::TkLogicalOr \| LuaTokenKind::TkBitOr(\s*if)', r'LuaTokenKind::TkLogicalOr | LuaTokenKind::TkBitOr | LuaTokenKind::TkEof\1',
          r'parse_simple_expr:precondition-not-satisfied\{parse_short_function'),
-    _mut('ge-brace-count-underflow', 'parse_table_expr', r'let mut brace_count = 1;', 'let mut brace_count = i32::MIN;', r'parse_table_expr:invariant-not-satisfied-before-loop\{1 <= brace_count'),
+    _mut('ge-brace-count-underflow', 'parse_table_expr', r'let mut brace_count = 1;', 'let mut brace_count = i32::MIN;', r'parse_table_expr:invariant-not-satisfied-before-loop\[C02\.expr\.brace-counter-no-overflow'),
     # ---- labelled postconditions ----
     _mut('ge-result-dead-marker', 'parse_param_name', r'Ok\(m\.complete\(p\)\)\s*\}\s*$', 'let cm = m.complete(p); Ok(CompleteMarker { start: cm.start + 1, kind: cm.kind }) }',
          r'C02\.expr\.result-marker-live'),
     _mut('ge-name-no-bump', 'parse_name_or_special_function', r'p\.bump\(\);\s*let mut cm = m\.complete\(p\);', 'let mut cm = m.complete(p);', r'C02\.expr\.progress'),
     _mut('ge-short-fn-setkind-no-bump', 'parse_short_function', r'(p\.set_current_token_kind\(LuaTokenKind::TkEmptyShortParam\);)\s*p\.bump\(\);', r'\1',
-         r'parse_short_function:postcondition-not-satisfied'),
+         r'parse_short_function:postcondition-not-satisfied\[C02\.grammar\.no-progress-keeps-token-kind'),
     # (no mutant for the array index in BinaryOperator::get_priority: this Verus reports an out-of-range array index as "precondition not met:
     #  index in bounds for this access", which vc/verus.py does not list among the violation messages -> such a run is UNDECIDED (exit 2), not 1)
 ]
@@ -411,10 +438,14 @@ TRUSTED = [
     'ParserConfig::support(feature): result uninterpreted (sp_support); ParserConfig::get_special_function(name): total, result unconstrained '
     '(match on string literals, else HashMap::get(..).unwrap_or(..)); LuaParser::current_token_text (shim of the stat side): requires token_index < len '
     '(PROVED at the call site in parse_name_or_special_function), the str slice at a token range is trusted not to panic (lexer ranges, unit c01_reader)',
-    'depth counters LuaParser::{enter_ternary,leave_ternary,inside_ternary_branch,enter_paren,leave_paren,paren_depth_exceeds_ternary_ref} are shims '
-    '(the three counter fields are projected out of the struct): frame = no kept field changes; NOT PROVED: `ternary_depth += 1` / `paren_depth += 1` '
-    'do not overflow (argument: usize counters starting at 0, each increment directly follows a `bump`, tokens.len() < 2^31); the boolean results are '
-    'unconstrained, so both outcomes of `inside_ternary_branch() && !paren_depth_exceeds_ternary_ref()` are covered',
+    'depth counters LuaParser::{enter_ternary,leave_ternary,inside_ternary_branch,enter_paren,leave_paren,paren_depth_exceeds_ternary_ref}: shims '
+    '(shared_shims.rs; the three usize fields ternary_depth / paren_depth / ternary_paren_depth are projected out of the struct and only these methods '
+    'touch them: grep). Frame: no kept field changes. NOT PROVED: `self.ternary_depth += 1` (enter_ternary) and `self.paren_depth += 1` (enter_paren) do '
+    'not overflow. Argument: both counters are 0 when LuaParser::parse constructs the parser; the only three increment sites are expr.rs:45 '
+    '(enter_ternary, directly after the `p.bump()` of `?`), expr.rs:606 and expr.rs:907 (enter_paren, directly after the `p.bump()` of `(`); every bump '
+    'strictly increases token_index (C02.bump.progress, proved) and token_index <= tokens.len() < 2^31 (tokens_ok); so each counter is at most the number '
+    'of bumps <= 2^31 - 1 < usize::MAX; leave_* are saturating_sub. The boolean results of inside_ternary_branch / paren_depth_exceeds_ternary_ref are '
+    'unconstrained, so both outcomes of the `:`-suffix test in parse_suffixed_expr are covered',
     'derive(PartialEq) on the field-less enums UnaryOperator / BinaryOperator / LuaFeatures / SpecialFunction / LuaType*Operator is structural equality '
     '(Verus `Structural` marker added to the derive list; Debug and #[repr] dropped)',
     'gfirst (events[0] is a NodeStart) and nosoft (no TkContinue/TkConst token at or after the cursor: stat side, see gspec.rs) are PRECONDITIONS of the '
